@@ -26,5 +26,7 @@ pub mod migration;
 pub mod protocol;
 pub mod proxy;
 pub mod replication;
+#[cfg(feature = "verif_hooks")]
+pub mod verif_hooks;
 
 pub use self::migration::MAX_REDIRECTIONS;
